@@ -5,7 +5,7 @@
    k = its env column e; x_ep / x_ix / x_last are ghost fields: number of the episode a stored
    transition belongs to, its index in that episode, whether it ended it. *)
 From Coq Require Import ZArith List Bool QArith Qround.
-From SB3V Require Import Gen.Frag_her Model.Replay Model.Her Proofs.HerProofs.
+From SB3V Require Import Gen.Frag_her Model.Replay Model.Her Proofs.HerProofs Proofs.HerReplayProofs.
 Import ListNotations.
 Local Open Scope Z_scope.
 
@@ -68,6 +68,28 @@ Print Assumptions C16_virtual_share.
 Theorem C16_virtual_share_bounds : forall n B, 0 <= n -> 0 <= B -> 0 <= nb_virtual n B <= B.
 Proof. exact virtual_share_bounds. Qed.
 Print Assumptions C16_virtual_share_bounds.
+
+(* ---- C16 x C03: HerReplayBuffer is a DictReplayBuffer: the ring law of C03 holds for what it stores.  A real (non-relabelled)
+        sample of a sampleable slot i, env e, returns the tags of column e of ONE add k among the last `capacity` adds, k mod capacity = i
+        (h = the rows added, in order; done / timeout may have been set by truncate_last_trajectory and are covered by C16's own statements) ---- *)
+Theorem C16_real_sample_is_C03_sound : forall bs n hto ops e i,
+  let b := her_run (her_create bs n hto) ops in let h := her_rows ops in let c := capacity bs n in
+  0 <= i < c -> valid (h_cols b e) i = true ->
+  exists k, 0 <= k /\ hlen h - c <= k < hlen h /\ i = k mod c /\
+    real_tags (h_cols b e) i = in_tags (hrow h k e) /\
+    (forall r, real_sample (h_cols b e) i = r ->
+       let '(o, a, d, act, no, na, nd, dn, rw) := r in (o, a, d, act, no, na, nd, rw) = in_tags (hrow h k e)).
+Proof. exact her_real_sample_sound. Qed.
+Print Assumptions C16_real_sample_is_C03_sound.
+
+(* the candidates of np.random.choice are exactly the sampleable (slot, env) cells; the batch is split into nb_virtual relabelled
+   and B - nb_virtual real elements: both parts come from those cells only and add up to the batch size *)
+Theorem C16_batch_from_valid_cells : forall b f n B, 0 <= h_nenv b ->
+  (In f (valid_flat b) <->
+   exists i e, f = i * h_nenv b + Z.of_nat e /\ 0 <= i < h_cap b /\ (Z.of_nat e < h_nenv b) /\ valid (h_cols b e) i = true) /\
+  (0 <= n -> 0 <= B -> let v := nb_virtual n B in 0 <= v /\ 0 <= B - v /\ v + (B - v) = B).
+Proof. exact (fun b f n B Hn => conj (valid_flat_spec b f Hn) (her_batch_split n B)). Qed.
+Print Assumptions C16_batch_from_valid_cells.
 
 (* ---- ties to the code regenerated from her_replay_buffer.py on every run ---- *)
 Theorem C16_frag_bookkeeping : forall c hto p k,
